@@ -116,7 +116,8 @@ def c05 (steps : List StepObs) (unsubAt : List (Option Nat)) (selfUnsub : Bool) 
     if st.status == "ok" then
       let mut j := 0
       for b in st.subs do
-        let gotEvent := st.recs.any fun r => match r with | .ev s _ _ => s == j | _ => false
+        -- a reaction may unsubscribe this or ANOTHER subscriber: any delivery in this step can explain it
+        let gotEvent := st.recs.any fun r => match r with | .ev _ _ _ => true | _ => false
         if b && (ended.contains j || endedNow.contains j) then
           return some s!"is_subscribed of subscriber {j} is still true after its subscription ended (step {i})"
         if !b && !(ended.contains j) && !(endedNow.contains j) then
